@@ -77,10 +77,12 @@ theorem coreInv_dagInit (c : Ctx) (s : St) (obs : List Obs) (d : DagRef) (below 
     (h : CoreInv s.core) : CoreInv (dagInit c s obs d below).1.core := by
   unfold dagInit
   simp only []
-  have h2 : CoreInv (if d.isRec = true then s.hide c.ord else s).core := by
+  have h0 : CoreInv (s.noteOrder (validOrder c.P s d c.ord)).core := by simpa using h
+  have h2 : CoreInv (if d.isRec = true then (s.noteOrder (validOrder c.P s d c.ord)).hide c.ord
+      else s.noteOrder (validOrder c.P s d c.ord)).core := by
     split
-    · exact coreInv_hide h _
-    · exact h
+    · exact coreInv_hide h0 _
+    · exact h0
   split <;> simpa using h2
 
 theorem coreInv_switchStart (c : Ctx) (s : St) (obs : List Obs) (d : DagRef) (n : Node) (below : List Frame)
